@@ -248,6 +248,21 @@ def shards(tier, seed):
                          ["len(c) == 1 and not_special(c)", "len(t) <= 1", "0 <= mode <= 2"], family="whole",
                          budget=900, prelude=["vf.chint"], desc="'[' + non-syntax character + one more"))
     # (b) inductive step
+    if _CUT_ERROR is not None and tier == "quick":
+        # the loop body can no longer be cut (reported as inconclusive by the validation): fall back to the
+        # whole-parse queries of length 3 behind '[' and '(' so that the check still explores the changed parser
+        for c in SPECIALS:
+            out.append(shard(PID, "whole/len3/lbracket+" + _NAMES[c], "harness.c14",
+                             "parse_total(%r + t, mode)" % ("[" + c), [("t", "str"), ("mode", "int")],
+                             ["len(t) <= 1", "0 <= mode <= 2"], family="whole", budget=900, prelude=["vf.chint"],
+                             desc="fallback: texts of length<=3 starting with %r" % ("[" + c), bounds={"t": "len<=1"}))
+        out.append(shard(PID, "whole/len3/lbracket+other", "harness.c14", "parse_total('[' + c + t, mode)",
+                         [("c", "str"), ("t", "str"), ("mode", "int")],
+                         ["len(c) == 1 and not_special(c)", "len(t) <= 1", "0 <= mode <= 2"], family="whole",
+                         budget=900, prelude=["vf.chint"], desc="fallback: '[' + non-syntax character + one more"))
+        out.append(shard(PID, "whole/len3/lparen", "harness.c14", "parse_total('(' + t, mode)",
+                         [("t", "str"), ("mode", "int")], ["len(t) <= 2", "0 <= mode <= 2"], family="whole", budget=900,
+                         prelude=["vf.chint"], desc="fallback: texts of length<=3 starting with '('"))
     if _CUT_ERROR is None:
         quick_chars = ["\\", "'", ")", "=", "&", ".", "/", "[", "]", "(", "!", "~", "*"]
         chars = SPECIALS if tier == "thorough" else quick_chars
